@@ -127,6 +127,7 @@ class FlagTables:
                 problems.setdefault(kind, []).append((msg, inp))
             saved = m.maskbits
             try:
+                parsed = []
                 for fi in range(nfiles):
                     groups = {}
                     for gi in range(rng.randint(1, 3) if fi else 3):
@@ -148,14 +149,19 @@ class FlagTables:
                                 for j, (lab, b) in enumerate(d.items()):
                                     # rows indented, tab-separated or in lower-case structure name: all admissible layouts
                                     lead = ["", "  ", "\t"][(fi + j) % 3]
-                                    f.write('%smaskbits %s %d %s "a description"\n' % (lead, g, b, lab))
+                                    sp = [" ", "\t", "  \t "][(fi + 2 * j) % 3]        # blanks, a tab, or both between the tokens
+                                    f.write(lead + sp.join(["maskbits", g, str(b), lab, '"a description"']) + "\n")
                             for k, (a, g) in enumerate(aliases.items()):
-                                f.write("%smaskalias %s %s\n" % ("    " if k % 2 else "", g, a))
+                                f.write("%smaskalias%s%s%s%s\n" % ("    " if k % 2 else "", ["\t", " "][(fi + k) % 2], g, [" ", "\t"][(fi + k) % 2], a))
                         try:
                             table = m.set_maskbits(maskbits_file=fn)
                         except Exception as e:
                             note("set_maskbits:table", "set_maskbits raised %s: %s" % (type(e).__name__, e), dict(groups=groups, aliases=aliases))
                             continue
+                    parsed.append((groups, aliases, table))
+                # all files are parsed first and the tables are then installed one after the other by assignment (the documented way:
+                # ``sdss.maskbits = set_maskbits(...)``), so that nothing remembered from an earlier table may leak into a later one
+                for groups, aliases, table in parsed + parsed[:2]:
                     want = {g: dict(d) for g, d in groups.items()}
                     for a, g in aliases.items():
                         want[a] = dict(groups[g])
